@@ -42,7 +42,9 @@ inline void svprintscripts(std::vector<std::string>& l, int& lmax, std::vector<C
         std::string header = "<<< taproot commitment >>>";
         if (header.length() > lmax) lmax = header.length();
         l.push_back(header);
-        for (const auto& s : desc) {
+        // the commitment steps that are still to be taken (m_i of them have been)
+        for (size_t j = tce->m_i; j < desc.size(); ++j) {
+            const auto& s = desc[j];
             if (s.length() > lmax) lmax = s.length();
             l.push_back(s);
         }
@@ -104,7 +106,12 @@ void print_dualstack() {
             CScript::const_iterator it = env->script.begin();
             opcodetype opcode;
             valtype vchPushValue, p2sh_script_payload;
-            while (env->script.GetOp(it, opcode, vchPushValue)) { p2sh_script_payload = vchPushValue; }
+            while (env->script.GetOp(it, opcode, vchPushValue)) {
+                // what the operation leaves on top of the stack (as in main())
+                p2sh_script_payload = vchPushValue;
+                if (opcode >= OP_1 && opcode <= OP_16) p2sh_script_payload = valtype(1, (unsigned char)(opcode - (OP_1 - 1)));
+                else if (opcode == OP_1NEGATE) p2sh_script_payload = valtype(1, 0x81);
+            }
             p2sh_script = CScript(p2sh_script_payload.begin(), p2sh_script_payload.end());
         }
     }
